@@ -97,6 +97,16 @@ Lemma int_range_flagged :
   /\ parse_i32 (s "2147483648") = false /\ parse_i32 (s "-2147483649") = false /\ parse_i32 (s "-") = false.
 Proof. repeat split; vm_compute; reflexivity. Qed.
 
+(** Field Selection Merging (5.3.2) is not implemented by check and is not among C03's rules: documents that violate
+    it satisfy all twenty rules and are accepted; the reference predicate [fields_can_merge_ok] rejects them and accepts
+    the feature-rich valid document *)
+Lemma fields_can_merge_not_checked :
+  check_operation_document w_schema_0 w_doc_18 = [] /\ spec_valid w_schema_0 w_doc_18 = true
+  /\ fields_can_merge_ok w_schema_0 w_doc_18 = false
+  /\ check_operation_document w_schema_0 w_doc_19 = [] /\ fields_can_merge_ok w_schema_0 w_doc_19 = false
+  /\ fields_can_merge_ok w_schema_0 w_doc_14 = true.
+Proof. repeat split; vm_compute; reflexivity. Qed.
+
 (** the same documents satisfy every rule on the visible sites: the guard of the theorems below is exactly
     what separates them *)
 Example blind_spots_are_outside_the_visible_sites :
